@@ -28,6 +28,10 @@ package oj
 //@     && a.Line == b.Line && a.LastNL == b.LastNL && a.Multi == b.Multi && a.ErrOff == b.ErrOff && a.Docs == b.Docs
 //@     && a.H == b.H && a.Bases == b.Bases
 
+//@ pred EqButOffPh(a, b) = a.Kinds == b.Kinds && a.Key == b.Key && a.Lit == b.Lit && a.K == b.K
+//@     && a.Line == b.Line && a.LastNL == b.LastNL && a.Multi == b.Multi && a.ErrOff == b.ErrOff && a.Docs == b.Docs
+//@     && a.H == b.H && a.Bases == b.Bases
+
 //@ pred TopIs(q, kind) = q.Kinds.Len() > 0 && q.Kinds.Top() == kind
 
 //@ pred VNext(p, q) = (q.Key ==> ident(p.nextMode, colonMap)) && (!q.Key ==> ident(p.nextMode, afterMap)) && (q.Key ==> TopIs(q, spec.Obj))
@@ -84,6 +88,7 @@ package oj
 //@   modifies p.stack, p.ri, p.mode, p.nextMode, p.line, p.noff, heap(p.stack)
 //@   ensures [C01 C09 sim] result == nil ==> VRel(p, spec.Run(qi, S, base+len(buf)), base+len(buf), base)
 //@   ensures [C01 accept] result == nil && last ==> spec.AcceptEOF(spec.Run(qi, S, base+len(buf)))
+//@   ensures [C07 maps] PMaps(p)
 //@   ensures [C01 C09 reject] result != nil ==> typeis(result, ParseError, ptr) && VErr(as(result, ParseError), as(result, ParseError).Column + p.noff, qi, S, base, len(buf), last)
 //@   ensures [C07 own] arrid(p.stack) == old(arrid(p.stack)) || fresh(p.stack)
 //@   loop 0
@@ -246,25 +251,33 @@ package oj
 // Levels: one entry of p.starts per open container; arrays record the stack index of their marker, objects -1; an
 // object's map sits at its base; a container opened as a member value sits two above its object (map, key).
 //@ pred PLevels(p, q) = len(p.starts) == q.Kinds.Len() && q.Bases.Len() == q.Kinds.Len() && len(p.stack) == q.H && 0 <= q.H
-//@     && (forall j: 0 <= j && j < len(p.starts) ==>
-//@            0 <= q.Bases[j] && q.Bases[j] < q.H
-//@         && ((q.Kinds[j] == spec.Arr && p.starts[j] == q.Bases[j]) || (q.Kinds[j] == spec.Obj && p.starts[j] == -1 && IsMap(p.stack[q.Bases[j]])))
-//@         && (j + 1 < len(p.starts) ==> q.Bases[j] < q.Bases[j+1]
-//@               && (q.Kinds[j] == spec.Obj ==> q.Bases[j+1] == q.Bases[j] + 2 && IsKey(p.stack[q.Bases[j]+1]))
-//@               && (q.Kinds[j] == spec.Arr ==> !IsKey(p.stack[q.Bases[j+1]-1]))))
+//@     && (forall j: 0 <= j && j < len(p.starts) ==> 0 <= q.Bases[j] && q.Bases[j] < q.H && (q.Kinds[j] == spec.Arr || q.Kinds[j] == spec.Obj))
+//@     && (forall j: 0 <= j && j < len(p.starts) && q.Kinds[j] == spec.Arr ==> p.starts[j] == q.Bases[j])
+//@     && (forall j: 0 <= j && j < len(p.starts) && q.Kinds[j] == spec.Obj ==> p.starts[j] == -1 && IsMap(p.stack[q.Bases[j]]))
+//@     && (forall i, j: 0 <= i && i < j && j < len(p.starts) ==> q.Bases[i] < q.Bases[j])
+//@     && (forall j by q.Kinds[j]: 0 <= j && j + 1 < len(p.starts) && q.Kinds[j] == spec.Obj ==> q.Bases[j+1] == q.Bases[j] + 2 && IsKey(p.stack[q.Bases[j]+1]))
+//@     && (forall j by q.Kinds[j]: 0 <= j && j + 1 < len(p.starts) && q.Kinds[j] == spec.Arr ==> !IsKey(p.stack[q.Bases[j+1]-1]))
+//@     && (q.Kinds.Len() > 0 ==> q.Bases[0] == 0)
 
 // Top of the stack by context.
 //@ pred PTop(p, q) = (q.Kinds.Len() == 0 ==> q.H == 0)
 //@     && (TopIs(q, spec.Obj) && KeyPushed(q) ==> q.H == q.Bases.Top() + 2 && IsKey(p.stack[q.H-1]))
 //@     && (TopIs(q, spec.Obj) && !KeyPushed(q) ==> q.H == q.Bases.Top() + 1)
 //@     && (TopIs(q, spec.Arr) ==> q.H >= q.Bases.Top() + 1 && !IsKey(p.stack[q.H-1]))
+//@     && (q.Kinds.Len() > 0 ==> 0 <= q.Bases.Top() && q.Bases.Top() < q.H)
+//@     && (TopIs(q, spec.Obj) ==> IsMap(p.stack[q.Bases.Top()]) && p.starts[len(p.starts)-1] == -1)
+//@     && (TopIs(q, spec.Arr) ==> p.starts[len(p.starts)-1] == q.Bases.Top())
+//@     && (q.Kinds.Len() > 1 && q.Kinds[q.Kinds.Len()-2] == spec.Obj ==> q.Bases.Top() == q.Bases[q.Bases.Len()-2] + 2 && IsKey(p.stack[q.Bases.Top()-1]))
+//@     && (q.Kinds.Len() > 1 && q.Kinds[q.Kinds.Len()-2] == spec.Arr ==> q.Bases[q.Bases.Len()-2] < q.Bases.Top() && !IsKey(p.stack[q.Bases.Top()-1]))
 
 //@ pred POwn(p, buf) = arrid(p.tmp) != arrid(buf) && arrid(p.runeBytes) != arrid(buf) && arrid(p.num.BigBuf) != arrid(buf)
 
+// Every recycled map is a map (p.maps only ever receives the result of make).
+//@ pred PMaps(p) = (forall k: 0 <= k && k < len(p.maps) ==> p.maps[k] != nil)
+
 //@ pred PRel(p, q, n, base) = VMode(p, q) && PLevels(p, q) && PTop(p, q) && q.Off == n && q.Multi == !p.OnlyOne
 //@     && p.line == q.Line && p.noff == q.LastNL - base && 1 <= q.Line && q.Line <= n + 1 && -1 <= q.LastNL && q.LastNL < n
-//@     && gen.NumInv(p.num) && 0 <= p.mi && p.mi <= len(p.maps)
-//@     && (forall k: 0 <= k && k < len(p.maps) ==> p.maps[k] != nil)
+//@     && (q.Ph >= spec.NumNeg && q.Ph <= spec.NumExp ==> gen.NumInv(p.num)) && 0 <= p.mi && p.mi <= len(p.maps) && PMaps(p)
 
 // add: a value completes. Under a pending key it is stored in the object below and the key is popped, otherwise pushed.
 //@ func (*Parser).add
@@ -279,12 +292,15 @@ package oj
 //@ func (*Parser).parseBuffer
 //@   ghost S seq, base int, qi spec.JState
 //@   opt stream = buf, S, base
+//@   opt forkappend = nonbyte
+//@   opt forkbytes = 4
 //@   requires 0 <= base && base + len(buf) <= 1152921504606846976
 //@   requires PRel(p, spec.Run(qi, S, base), base, base)
 //@   requires [own] POwn(p, buf)
 //@   modifies everything
 //@   ensures [C01 C09 sim] result == nil && !last ==> PRel(p, spec.Run(qi, S, base+len(buf)), base+len(buf), base) && POwn(p, buf)
 //@   ensures [C01 accept] result == nil && last ==> spec.AcceptEOF(spec.Run(qi, S, base+len(buf)))
+//@   ensures [C07 maps] PMaps(p)
 //@   ensures [C01 C09 reject] result != nil ==> typeis(result, ParseError, ptr) && VErr(as(result, ParseError), as(result, ParseError).Column + p.noff, qi, S, base, len(buf), last)
 //@   loop 0
 //@     invariant [C01 C06 C09 bounds] 0 <= off && off <= len(buf) && depth == len(p.starts)
@@ -341,7 +357,6 @@ package oj
 //@     invariant $k >= 0 ==> digitMap[b] == numDigit
 //@     invariant [C02 inv] gen.NumInv(p.num) && len(p.num.BigBuf) == 0 && arrid(p.num.BigBuf) != arrid(buf)
 //@     invariant [C01 C09 sim] EqButOff(spec.Run(qi, S, base+o1+$k+1), R1) && spec.Run(qi, S, base+o1+$k+1).Off == base+o1+$k+1
-//@     invariant [C01 C09 sim] $k >= 0 ==> EqButOff(spec.Run(qi, S, base+o1+$k), R1) && spec.Run(qi, S, base+o1+$k).Off == base+o1+$k
 //@     use spec.Run.unfold(qi, S, base+o1+$k+1)
 //@   loop 6
 //@     let o1 = off + 1
@@ -352,9 +367,8 @@ package oj
 //@     invariant $k == -1 ==> i == i0 && b == b0
 //@     invariant $k >= 0 ==> digitMap[b] == numDigit
 //@     invariant [C02 inv] gen.NumInv(p.num) && len(p.num.BigBuf) == 0 && arrid(p.num.BigBuf) != arrid(buf)
-//@     invariant [C01 C09 sim] $k >= 0 ==> spec.Run(qi, S, base+o1+$k+1).Ph == spec.NumFrac
-//@     invariant [C01 C09 sim] $k >= 0 ==> EqButOff(spec.Run(qi, S, base+o1+$k+1), spec.Run(qi, S, base+o1+1)) && spec.Run(qi, S, base+o1+$k+1).Off == base+o1+$k+1
-//@     invariant [C01 C09 sim] $k >= 1 ==> EqButOff(spec.Run(qi, S, base+o1+$k), spec.Run(qi, S, base+o1+1)) && spec.Run(qi, S, base+o1+$k).Off == base+o1+$k
+//@     invariant [C01 C09 sim] $k >= 0 ==> spec.Run(qi, S, base+o1+$k+1).Ph == spec.NumFrac && EqButOffPh(spec.Run(qi, S, base+o1+$k+1), R1)
+//@     invariant [C01 C09 sim] $k >= 0 ==> spec.Run(qi, S, base+o1+$k+1).Off == base+o1+$k+1
 //@     use spec.Run.unfold(qi, S, base+o1+$k+1)
 //@   loop 7
 //@     let o1 = off + 1
@@ -367,3 +381,40 @@ package oj
 //@     invariant [C01 C09 sim] EqButOff(spec.Run(qi, S, base+o1+$k+1), R1) && spec.Run(qi, S, base+o1+$k+1).Off == base+o1+$k+1
 //@     invariant [C01 C09 sim] $k >= 0 ==> EqButOff(spec.Run(qi, S, base+o1+$k), R1) && spec.Run(qi, S, base+o1+$k).Off == base+o1+$k
 //@     use spec.Run.unfold(qi, S, base+o1+$k+1)
+
+// ---------------------------------------------------------------------------
+// Entry point: Parse (without options) accepts exactly the texts the specification accepts, after an optional BOM, from
+// any prior state of the Parser (C07: the per-call state is re-initialised; what survives is the recycled storage).
+
+//@ func (*Parser).Parse
+//@   ghost S seq, zero int, T seq
+//@   opt stream = buf, S, zero
+//@   opt forkappend = nonbyte
+//@   requires zero == 0 && S.Len() == len(buf) && len(buf) <= 1099511627776
+//@   requires forall j: 0 <= j && j < len(buf) - 3 ==> T[j] == S[j+3]
+//@   requires len(args) == 0
+//@   requires [own] POwn(p, buf) && PMaps(p)
+//@   modifies everything
+//@   let hasBOM = 2 < len(buf) && S[0] == 0xEF && S[1] == 0xBB && S[2] == 0xBF
+//@   ensures [C01 C07 accept] !hasBOM ==> (result1 == nil <==> spec.AcceptEOF(spec.Run(spec.Init(false), S, len(buf))))
+//@   ensures [C01 C07 accept-bom] hasBOM ==> (result1 == nil <==> spec.AcceptEOF(spec.Run(spec.Init(false), T, len(buf) - 3)))
+//@   ensures [C07 maps] PMaps(p)
+//@   use spec.Run.unfold(spec.Init(false), S, as(result1, ParseError).Column + p.noff), spec.Run.unfold(spec.Init(false), T, as(result1, ParseError).Column + p.noff)
+//@   use ErrAbsorbing(spec.Init(false), S, as(result1, ParseError).Column + p.noff + 1, len(buf))
+//@   use spec.Run.unfold(spec.Init(false), S, 0), ErrAbsorbing(spec.Init(false), S, 1, len(buf))
+//@   use ErrAbsorbing(spec.Init(false), T, as(result1, ParseError).Column + p.noff + 1, len(buf) - 3)
+//@   loop 0
+//@     invariant p.OnlyOne
+//@   loop 1
+//@     invariant -1 <= i && i < len(p.stack)
+//@     variant i + 1
+//@   at call parseBuffer#0
+//@     with S = T
+//@     with base = 0
+//@     with qi = spec.Init(false)
+//@     use spec.Run.unfold(spec.Init(false), T, 0)
+//@   at call parseBuffer#1
+//@     with S = S
+//@     with base = 0
+//@     with qi = spec.Init(false)
+//@     use spec.Run.unfold(spec.Init(false), S, 0)
